@@ -22,6 +22,7 @@ func init() {
 	plans["C10"] = pipesimPlan("C10")
 	plans["C11"] = pipesimPlan("C11")
 	plans["C07"] = snapsimPlan()
+	plans["C12"] = gpkgsimPlan()
 }
 
 func runTimed(c *checker, ph phase) ([]workerOutcome, bool) {
@@ -320,6 +321,57 @@ func snapsimPlan() plan {
 				}
 			}
 			return finish(0)
+		},
+	}
+}
+
+// ------------------------------------------------------------------------------------
+// gpkgsim: C12
+
+func gpkgsimPhases(tier string) map[string]phase {
+	b := 30.0
+	if tier != "quick" {
+		b = 600
+	}
+	return map[string]phase{
+		"explore": {Name: "explore", Build: "gpkgsim", TestRun: "^TestVerifGpkgsim$", Engine: "gpkgsim", Mode: "explore", BudgetS: b, Workers: 16, Samples: 2},
+	}
+}
+
+func gpkgsimPlan() plan {
+	return plan{
+		builds: func(tier string) []string { return []string{"gpkgsim"} },
+		phase: func(name, tier string) (phase, bool) {
+			p, ok := gpkgsimPhases(tier)[name]
+			return p, ok
+		},
+		run: func(c *checker) int {
+			phs := gpkgsimPhases(c.tier)
+			agg := newAggregate()
+			rule := "one evaluation = one simulated run: a generated table (name, 0-4 attribute columns of INTEGER/REAL/TEXT flavours, nullable or not, geometry column anywhere after the key, one of six geometry types, " +
+				"one of four spatial reference systems), a page size 1..40 and a feature count 0..3*pagesize+1 drawn so that every relation (0, <p, =p, k*p, k*p+1, k*p-1, 3p+1) occurs; the real TargetGeopackage writes " +
+				"real SQLite files in tmpfs, either fed directly by a simulated reader or through the real ProcessFeatures pipeline with 1..3 writers flushing concurrently, under the seeded scheduler; every target " +
+				"file is read back with the harness's own GeoPackage decoder and compared with the model (rows in order with SQLite value types, blob header, R*Tree entries, gpkg_contents extent, gpkg_geometry_columns, " +
+				"PRAGMA table_info, SRS row). Non-trivial = at least one feature. Distinct = distinct (workload, schedule) digests among non-trivial runs."
+			assumptions := []string{
+				"sampling, not proof",
+				"the SpatiaLite extension is replaced by five pure-Go SQL functions (ST_IsEmpty, ST_MinX/MaxX/MinY/MaxY) registered under the driver name go-spatial looks for; everything else (SQLite 3.42 with R*Tree, database/sql, go-sqlite3, go-spatial's gpkg package) is real",
+				"attribute columns stay within the property's quantifier (integer, real, text, NULL); BOOLEAN/DATE/DATETIME/BLOB columns are outside it and not generated",
+				"no disk faults are injected: the writer has no recovery path and the property is not quantified over faults",
+			}
+			components := map[string][]string{
+				"real": {"gpkg.SourceGeopackage.Init/GetTableInfo/Close", "gpkg.TargetGeopackage.Init/CreateTables/WriteFeatures/Close", "processing.ProcessFeatures (pipeline mode)", "go-spatial encoding/gpkg", "database/sql", "mattn/go-sqlite3 + SQLite 3.42 on tmpfs files"},
+				"stub": {"spatialite SQL functions (pure Go)", "feature producer (simulated reader)", "snap function (pipeline mode: keep-and-shift or drop per tile matrix)"},
+			}
+			c.determinismSelftest(phs["explore"], map[string]uint64{"quick": 6, "thorough": 40}[c.tier])
+			outs, bad := runTimed(c, phs["explore"])
+			agg.add(outs)
+			code := 0
+			if bad {
+				code = 1
+			}
+			c.writeEvidence(agg, rule, assumptions, components)
+			return code
 		},
 	}
 }
